@@ -58,6 +58,7 @@ theorem key_mapP (g : Game) (f : Player → Player) (hf : ∀ p, handOf (f p) = 
 @[simp] theorem key_setRaiser (g : Game) (i : Nat) : (g.setRaiser i).key = g.key := rfl
 @[simp] theorem key_setCw (g : Game) (x : Int) : (g.setCw x).key = g.key := rfl
 @[simp] theorem key_setPrev (g : Game) (x : Int) : (g.setPrev x).key = g.key := rfl
+@[simp] theorem key_recordBet (g : Game) (i : Nat) : (g.recordBet i).key = g.key := rfl
 @[simp] theorem key_addRoundPot (g : Game) (x : Int) : (g.addRoundPot x).key = g.key := rfl
 @[simp] theorem key_offer (g : Game) (i : Nat) : (g.offer i).key = g.key :=
   key_modP _ _ _ (by intro p; rfl)
